@@ -20,7 +20,7 @@ def run(ctx):
     if not ctx.translate():
         return
     ok = ctx.prove(MODULES)
-    n = 1500 if ctx.thorough() else 250
+    n = 5000 if ctx.thorough() else 250
     res = fw.corr(ctx, "ibc", n)
     fw.report_corr(ctx, "ibc", res, known_features=features)
     if res is not None:
